@@ -53,27 +53,31 @@ def main():
                 "reflected, unary, literal mix, builtin with and without parameters, call with kwargs, nested item refs, "
                 "computed keys); pickle round trip, verify(), structural equality of definitions, mirrored follow-up "
                 "assignments, independence; non-trivial = every case", f"all 1- and 2-subsets{'' if quick else ' and 3-subsets'} of {len(names)} expressions")
-    targets = ["t", "u", "v"]
-    combos = [c for n in (1, 2) for c in itertools.combinations(names, n)]
+    combos0 = [c for n in (1, 2) for c in itertools.combinations(names, n)]
     if not quick:
-        combos += list(itertools.combinations(names, 3))
-    for combo in combos:
+        combos0 += list(itertools.combinations(names, 3))
+    # two placements of the definitions: top-level keys, and members of shared nested containers (several tasks then
+    # write into one container: index multiplicities > 1)
+    combos = [(c, ["t", "u", "v"], ["r['t']", "r['u']", "r['v']"]) for c in combos0] + \
+             [(c, None, ["r['lst'][0]", "r['lst'][2]", "r['n']['y']"]) for c in combos0
+              if not set(c) & {"computed-key", "nested-item", "deep"}]
+    for combo, targets, tsrc in combos:
         d, m, r, fr = world()
         script = PRELUDE + WORLD + STRUCT + "d, m, r, fr = world()\n" + "".join(
-            f"r[{t!r}] = {EXPRS[n]}\n" for t, n in zip(targets, combo)) + \
+            f"{t} = {EXPRS[n]}\n" for t, n in zip(tsrc, combo)) + \
             "m2 = pickle.loads(pickle.dumps(m))\nm2.verify()\n" \
             "assert {str(k): struct(t.expr) for k, t in m.tasks.items()} == {str(k): struct(t.expr) for k, t in m2.tasks.items()}\n" \
             "d2 = m2.containers['d']._owner\nm2.containers['d']['a'] = 7.0; m.containers['d']['a'] = 7.0\n" \
             "assert all(d[k] == d2[k] or (d[k] != d[k]) for k in ('t', 'u', 'v')), (d, d2)\n" \
             "m2.containers['d']['b'] = 99.0\nassert d['b'] != 99.0, 'copy not independent'\nprint('ok')\n"
-        key = "pickle " + "+".join(combo)
+        key = ("pickle " if targets else "pickle-nested ") + "+".join(combo)
         try:
-            for t, n in zip(targets, combo):
-                r[t] = eval(EXPRS[n], dict(r=r, fr=fr, math=math))
+            for t, n in zip(tsrc, combo):
+                exec(f"{t} = {EXPRS[n]}", dict(r=r, fr=fr, math=math))
         except Exception as ex:      # noqa
             rac.fail(key, f"defining {combo} raised {ex!r}", script, "Manager.set_value")
             continue
-        rac.case(combo, sample=[EXPRS[n] for n in combo])
+        rac.case((combo, bool(targets)), sample=[f"{t} = {EXPRS[n]}" for t, n in zip(tsrc, combo)])
         try:
             m2 = pickle.loads(pickle.dumps(m))
         except BaseException as ex:      # noqa (RecursionError is a BaseException subclass of Exception; be safe)
@@ -82,6 +86,14 @@ def main():
             continue
         try:
             m2.verify()
+            idx = lambda mm: {n: {str(k_): {str(x_): c_ for x_, c_ in v_.items()} for k_, v_ in getattr(mm, n).items() if len(v_)}
+                              for n in ("rdeps", "rtasks", "deptasks", "tartasks")}
+            if idx(m) != idx(m2):
+                bad = [n for n in idx(m) if idx(m)[n] != idx(m2)[n]]
+                rac.fail(key, f"restored manager's indices {bad} differ from the original's (multiplicities included)",
+                         script + "I = lambda mm: {n: {str(k): {str(x): c for x, c in v.items()} for k, v in getattr(mm, n).items() if len(v)} "
+                         "for n in ('rdeps', 'rtasks', 'deptasks', 'tartasks')}\nassert I(m) == I(m2), (I(m), I(m2))\n", "RefCount")
+                continue
             s1 = {str(k): struct(t.expr) for k, t in m.tasks.items()}
             s2 = {str(k): struct(t.expr) for k, t in m2.tasks.items()}
             if s1 != s2:
@@ -94,10 +106,20 @@ def main():
             for kk, vv in (("a", 7.0), ("c", -1.0), ("i", 2)):
                 m.containers["d"][kk] = vv
                 m2.containers["d"][kk] = vv
-                bad = [t for t in targets if not (d[t] == d2[t] or (d[t] != d[t] and d2[t] != d2[t]))]
-                if bad:
-                    rac.fail(key, f"after {kk} = {vv}: original {[(t, d[t]) for t in bad]} copy {[(t, d2[t]) for t in bad]}", script, "__reduce__")
+                if repr(d) != repr(d2):
+                    rac.fail(key, f"after {kk} = {vv}: original {d} copy {d2}", script, "__reduce__")
                     break
+            # removing a definition afterwards: both must stay consistent and answer queries alike
+            for t_ in tsrc[:1]:
+                exec(f"{t_} = 1.25", dict(r=m.containers["d"]))
+                exec(f"{t_} = 1.25", dict(r=m2.containers["d"]))
+            m.verify()
+            m2.verify()
+            fd = lambda mm: sorted(map(str, mm.find_deps([mm.containers["d"]["a"]])))
+            if idx(m) != idx(m2) or fd(m) != fd(m2):
+                rac.fail(key, "after removing a definition the restored manager's indices / find_deps differ from the original's",
+                         script, "RefCount")
+                continue
             before = copy.deepcopy({k: d[k] for k in ("a", "b", "c", "t", "u", "v")})
             m2.containers["d"]["b"] = 99.0
             if {k: d[k] for k in before} != before:
